@@ -35,6 +35,13 @@ THEOREMS = [
     "Pydjinni.Front.finishFile_spec",
     "Pydjinni.Front.violationsOrdered_single",
     "Pydjinni.Front.regUpTo_last",
+    "Pydjinni.Front.walkDecl_eq_declRules",
+    "Pydjinni.Front.walkDecl_perm_declRules",
+    "Pydjinni.Front.registerAll_eq_progRegistry",
+    "Pydjinni.Front.finishFile_eq_violations",
+    "Pydjinni.Front.finishFile_eq_violations_of_fresh",
+    "Pydjinni.Front.finishFile_perm_violations",
+    "Pydjinni.Front.accepted_iff_no_violation",
 ]
 LEVEL = "proof"
 
